@@ -23,6 +23,7 @@
 #include <sys/wait.h>
 #include <inttypes.h>
 #include <sched.h>
+#include <pthread.h>
 #include "Cello.h"
 
 /* ---------- PRNG: splitmix64 -> xoshiro256** ---------- */
@@ -148,9 +149,22 @@ static void vh_sanitize_line(char* s) {
   for (; *s; s++) { if (*s == '\n' || *s == '\r') { *s = ' '; } }
 }
 
-/* report an oracle failure; key has no seeds or addresses */
+/* report an oracle failure; key has no seeds or addresses (safe to call from worker threads) */
+static pthread_mutex_t vh_mu = PTHREAD_MUTEX_INITIALIZER;
+static void vh_violation_locked(const char* key, const char* buf);
 static void vh_violation(const char* key, const char* fmt, ...) __attribute__((format(printf, 2, 3)));
 static void vh_violation(const char* key, const char* fmt, ...) {
+  char buf[900];
+  va_list va; va_start(va, fmt);
+  vsnprintf(buf, sizeof buf, fmt, va);
+  va_end(va);
+  pthread_mutex_lock(&vh_mu);
+  vh_violation_locked(key, buf);
+  pthread_mutex_unlock(&vh_mu);
+}
+static void vh_violation_locked(const char* key, const char* msg) {
+  char buf[900];
+  snprintf(buf, sizeof buf, "%s", msg);
   vh.violations++;
   int k;
   for (k = 0; k < vh.nvkeys; k++) { if (strcmp(vh.vkeys[k].key, key) == 0) { break; } }
@@ -160,10 +174,6 @@ static void vh_violation(const char* key, const char* fmt, ...) {
     vh.vkeys[k].n = 0; vh.nvkeys++;
   }
   if (vh.vkeys[k].n++ >= VH_MAX_V_PER_KEY) { return; }
-  char buf[900];
-  va_list va; va_start(va, fmt);
-  vsnprintf(buf, sizeof buf, fmt, va);
-  va_end(va);
   vh_sanitize_line(buf);
   if (vh.res) {
     fprintf(vh.res, "V %s %s:%ld:%" PRIu64 " %s | ops(%ld): %s\n", key,
